@@ -92,7 +92,16 @@ def make_worker(want_c01, want_c02, two, opts=(), skip_syntax=(), extra_sig=None
                     if encs[s] is None:
                         viol('enc_fail', s, 'encoder failed where the reference defines an encoding: ' + kv.get(s, ''))
                     elif encs[s] != exp[s]:
-                        viol('bytes_differ', s, 'expected=%s observed=%s' % (exp[s].hex()[:400], encs[s].hex()[:400]))
+                        kind = 'bytes_differ'
+                        if s == 'oer' and 'setof_multi' in feats:
+                            # attribute the difference: is the observed encoding exactly the canonical one with the SET OF
+                            # elements left in their in-memory (= DER) order?
+                            try:
+                                if oer.encode(b.mod, t, v, oer.DerOrder()) == encs[s]:
+                                    kind = 'bytes_differ_setof_memory_order'
+                            except Exception:
+                                pass
+                        viol(kind, s, 'expected=%s observed=%s' % (exp[s].hex()[:400], encs[s].hex()[:400]))
             if nontriv and len(set(x for x in encs.values() if x is not None)) >= 3:
                 o.distinct.add((c.label, d))
             if len(o.samples) < 2 and nontriv and o.stats['values'] % 97 == 1:
